@@ -212,35 +212,73 @@ theorem nodup_removeIfComplete (g : Graph) (s : State) (x : Proxy) (h : NoDup s)
       · exact nodup_remove _ _ _ h
       · exact h
 
+theorem nodup_spawnChild (g : Graph) (p : Int) (n out : String) (acc : State × List (Int × String)) (c : Child)
+    (h : NoDup acc.1) : NoDup (spawnChild g p n out acc c).1 := by
+  obtain ⟨st, sui⟩ := acc
+  unfold spawnChild
+  simp only
+  -- the state after recording the absolute output
+  have h0 : NoDup (if (c.isAbs && !st.absDone.contains ⟨p, n, out⟩) = true then
+      { st with absDone := st.absDone ++ [⟨p, n, out⟩] } else st) := by
+    split
+    · exact h
+    · exact h
+  generalize (if (c.isAbs && !st.absDone.contains ⟨p, n, out⟩) = true then
+      { st with absDone := st.absDone ++ [⟨p, n, out⟩] } else st) = st0 at h0 ⊢
+  have hfold : ∀ (ks : List (Int × String)) (a : State × List (Int × String)), NoDup a.1 →
+      NoDup (ks.foldl (fun (a : State × List (Int × String)) k =>
+        match a.1.get? k.1 k.2 with
+        | none => a
+        | some z =>
+          let z := z.satisfyMe ⟨p, n, out⟩
+          (a.1.put z, if (z.suicideNow && !a.2.contains k) = true then a.2 ++ [k] else a.2)) a).1 := by
+    intro ks; induction ks with
+    | nil => intro a ha; exact ha
+    | cons k ks ih =>
+      intro a ha
+      apply ih
+      simp only
+      split
+      · exact ha
+      · exact nodup_put _ _ ha
+  split
+  · exact h0
+  · apply hfold
+    simp only
+    split
+    · exact h0
+    · exact nodup_add _ _ h0
+
 theorem nodup_spawnOnOutput (g : Graph) (s : State) (p : Int) (n out : String) (h : NoDup s) :
     NoDup (spawnOnOutput g s p n out) := by
   unfold spawnOnOutput
   split
   · exact h
   · simp only
-    have h1 : ∀ (cs : List Child) (st : State), NoDup st →
-        NoDup (cs.foldl (fun (st : State) c =>
-          let atom : Atom := ⟨p, n, out⟩
-          match st.get? c.pt c.name with
-          | some y => st.put (y.satisfyMe atom)
-          | none =>
-            match spawnTask g st c.name c.pt with
-            | some y => st.add (y.satisfyMe atom)
-            | none => st) st) := by
+    have h1 : ∀ (cs : List Child) (acc : State × List (Int × String)), NoDup acc.1 →
+        NoDup (cs.foldl (spawnChild g p n out) acc).1 := by
       intro cs; induction cs with
+      | nil => intro acc ha; exact ha
+      | cons c cs ih => intro acc ha; exact ih _ (nodup_spawnChild g p n out acc c ha)
+    have h2 : ∀ (ks : List (Int × String)) (st : State), NoDup st →
+        NoDup (ks.foldl (fun (st : State) k => match st.get? k.1 k.2 with
+          | some z => remove g st z
+          | none => st) st) := by
+      intro ks; induction ks with
       | nil => intro st hst; exact hst
-      | cons c cs ih =>
+      | cons k ks ih =>
         intro st hst
         apply ih
         simp only
         split
-        · exact nodup_put _ _ hst
-        · split
-          · exact nodup_add _ _ hst
-          · exact hst
+        · exact nodup_remove _ _ _ hst
+        · exact hst
+    generalize hR : (List.foldl (spawnChild g p n out) (s, []) _) = R
+    have hRn : NoDup R.1 := by rw [← hR]; exact h1 _ _ h
+    have h3 := h2 R.2 R.1 hRn
     split
-    · exact nodup_removeIfComplete _ _ _ (h1 _ _ h)
-    · exact h1 _ _ h
+    · exact nodup_removeIfComplete _ _ _ h3
+    · exact h3
 
 theorem nodup_store (s : State) (x : Proxy) (tr : Bool) (h : NoDup s) : NoDup (store s x tr) := by
   unfold store; split
@@ -270,23 +308,26 @@ theorem nodup_processMessage (g : Graph) : ∀ (fuel : Nat) (s : State) (p : Int
     · rename_i x tr _
       split
       · exact h
-      · -- after completing the output and the implied messages
-        simp only
-        have hstore : ∀ (y : Proxy), NoDup (store s y tr) := fun y => nodup_store _ _ _ h
-        have himp : ∀ (l : List String) (st : State), NoDup st →
-            NoDup (l.foldl (fun st m => (processMessage g fuel st p n .internal sn m).1) st) := by
-          intro l; induction l with
-          | nil => intro st hst; exact hst
-          | cons a l ihl => intro st hst; exact ihl _ (ih _ _ _ _ _ _ hst)
-        generalize hS : (List.foldl (fun st m => (processMessage g fuel st p n Flag.internal sn m).1) _ _) = S
-        have hSn : NoDup S := by rw [← hS]; exact himp _ _ (hstore _)
-        split
-        · exact hSn
-        · repeat' split
-          all_goals first
-            | exact hSn
-            | exact nodup_spawnChildren _ _ _ _ _ _ (nodup_store _ _ _ hSn)
-            | exact nodup_spawnChildren _ _ _ _ _ _ hSn
+      · split
+        · exact h
+        · -- after completing the output and the implied messages
+          simp only
+          have hstore : ∀ (y : Proxy), NoDup (store s y tr) := fun y => nodup_store _ _ _ h
+          have himp : ∀ (l : List String) (st : State), NoDup st →
+              NoDup (l.foldl (fun st m => (processMessage g fuel st p n .internal sn m).1) st) := by
+            intro l; induction l with
+            | nil => intro st hst; exact hst
+            | cons a l ihl => intro st hst; exact ihl _ (ih _ _ _ _ _ _ hst)
+          generalize hS : (List.foldl (fun st m => (processMessage g fuel st p n Flag.internal sn m).1) _ _) = S
+          have hSn : NoDup S := by rw [← hS]; exact himp _ _ (hstore _)
+          split
+          · exact hSn
+          · repeat' split
+            all_goals first
+              | exact hSn
+              | exact nodup_store _ _ _ hSn
+              | exact nodup_spawnChildren _ _ _ _ _ _ (nodup_store _ _ _ hSn)
+              | exact nodup_spawnChildren _ _ _ _ _ _ hSn
 
 theorem nodup_processQueue (g : Graph) (s : State) (h : NoDup s) : NoDup (processQueue g s) := by
   unfold processQueue
@@ -335,7 +376,7 @@ theorem nodup_sweepQueue (s : State) (h : NoDup s) : NoDup (sweepQueue s) := by
   · intro st x hst
     split
     · split
-      · exact nodup_queueIfReady _ _ hst
+      · exact nodup_queueIfReady _ _ (nodup_put _ _ hst)
       · exact hst
     · exact hst
   · exact h
